@@ -145,7 +145,9 @@ def erased_position(ast, ident):
                         pat = pat[2]
                     else:
                         out |= need(a, depth)      # more arguments than parameters: not modelled, keep
-                if e[3][0] != "none" and (pat_names(pat) & bn or pat[0] == "pn"):
+                # (a &rest tail binds whatever part of the parameter pattern the positional arguments leave over: nothing
+                #  when they use it up)
+                if e[3][0] != "none" and pat_names(pat) & bn:
                     out |= need(e[3], depth)
                 return out
             for a in e[2]:
